@@ -881,12 +881,19 @@ func IsInConflict(ctx context.Context, localHLV, incomingHLV *HybridLogicalVecto
 	return HLVConflict
 }
 
-// UpdateHistory updates HLV's PV with any newer versions present in incomingHLV.  Will not modify sources present in HLV's CV or MV.
+// UpdateHistory updates HLV's PV with any newer versions present in incomingHLV.  Will not modify sources present in
+// HLV's CV. Sources present in HLV's MV are not modified unless incomingHLV's CV or MV has a newer version for one of
+// them, in which case HLV's MV is invalidated (moved to PV) before the newer versions are added.
 func (hlv *HybridLogicalVector) UpdateHistory(incomingHLV *HybridLogicalVector) {
 
 	// CV
 	if incomingHLV.SourceID != "" {
-		hlv.AddVersionToPV(incomingHLV.SourceID, incomingHLV.Version) // CV
+		if hlv.AddVersionToPV(incomingHLV.SourceID, incomingHLV.Version) == versionInMVOlder {
+			// incomingHLV's cv is newer than hlv's merge version for the same source, so hlv's merge versions are out
+			// of date. Move them to pv and record the newer version, otherwise it would be recorded nowhere in hlv.
+			hlv.InvalidateMV()
+			hlv.AddVersionToPV(incomingHLV.SourceID, incomingHLV.Version)
+		}
 	}
 
 	invalidateMV := false
